@@ -59,7 +59,26 @@ fn main() {
         }
         i += 1;
     }
-    let _ = (&tier, &replay);
+    if let Some(path) = &replay {
+        // a replay file names the property, the tier it was found in and the key of the case
+        match std::fs::read_to_string(path).ok().and_then(|t| serde_json::from_str::<serde_json::Value>(&t).ok()) {
+            Some(v) => {
+                if v["tier"].as_str() == Some("thorough") {
+                    tier = Tier::Thorough;
+                }
+                if v["property"].as_str() != Some(args[1].as_str()) {
+                    eprintln!("replay file belongs to property {}", v["property"]);
+                    std::process::exit(2);
+                }
+                let _ = REPLAY_KEY.set(v["key"].as_str().unwrap_or("").to_string());
+                std::env::set_var("MSVERIF_REPLAY_FILE", path);
+            }
+            None => {
+                eprintln!("cannot read replay file {}", path);
+                std::process::exit(2);
+            }
+        }
+    }
     let code = match args[1].as_str() {
         "census" => {
             let n: usize = args.get(2).and_then(|s| s.parse().ok()).unwrap_or(5);
